@@ -265,5 +265,3 @@ func firstKey(s lockset.Set) string {
 	}
 	return best
 }
-
-
